@@ -316,9 +316,8 @@ theorem C17_nextCmd_keeps_wf (S : Segmenter) (U : UData) (cfg : EdCfg) (fuel : N
     before the cursor").  (`next_cmd` is discharged: `C17_next_cmd`; the bound on `ReplaceChar`
     counts and "no `YankPop` in vi mode" are: `C17_next_cmd_returns`.)
     * `undo`: from `RdInv` and `J`, `Undo` does not panic and re-establishes both.  For
-      `J := UndoLogInv` this is `C17_undo_safe_of_log`; but `UndoLogInv` is not the right `J` in vi
-      mode: there the abort of an incremental search can leave a stale entry (finding D47:
-      known_findings.json, DESIGN.md C05; `C05_abort_transparent_refuted`);
+      `J := UndoLogInv` this is `C17_undo_safe_of_log` (before the repair of D47 `UndoLogInv` was not kept
+      by a vi-mode read: the abort of an incremental search could leave a stale entry);
     * `yankPop`: the same for `YankPop` in EMACS mode (`C17_yankPop_safe_of_popOK` is the no-panic
       half for `J := PopOK`);
     * `other`: every other command keeps `J`; and so do the steps of a read that are not commands
